@@ -531,7 +531,7 @@ func init() {
 	fw.Register(&fw.Property{
 		ID:          "C06",
 		Level:       "exploration",
-		Rule:        "generated commits (text fields of 0/1/65534/65535/65536/70000 B with embedded field labels and non-UTF8, 0..6 parents, instants 1970..2286 x zones -12:00..+14:00 incl. :30/:45, zero time), tables (0..40 columns, key subsets, row counts at block edges), blocks (1..255 rows incl. rows over 64 KiB) with their block indices, profiles produced by the profiler, and the packfile length header (every length in a range exhaustively, all 2^k-1/2^k/2^k+1 for k<=63, sampled 32/64-bit values x 3 types): decode(encode(v)) = v, encode(decode(bytes)) = bytes, store key = prefix + meow(canonical bytes), identical content stored once, oversize text rejected with an error; distinct_nontrivial = distinct object shapes",
+		Rule:        "generated commits (text fields of 0/1/65534/65535/65536/70000 B with embedded field labels and non-UTF8, 0..6 parents, instants 1970..2286 x zones -12:00..+14:00 incl. :30/:45, zero time), blocks (also passed to ValidateBlockBytes, which must accept what WriteBlockTo writes), tables (0..40 columns, key subsets, row counts at block edges), blocks (1..255 rows incl. rows over 64 KiB) with their block indices, profiles produced by the profiler, and the packfile length header (every length in a range exhaustively, all 2^k-1/2^k/2^k+1 for k<=63, sampled 32/64-bit values x 3 types): decode(encode(v)) = v, encode(decode(bytes)) = bytes, store key = prefix + meow(canonical bytes), identical content stored once, oversize text rejected with an error; distinct_nontrivial = distinct object shapes",
 		Assumptions: []string{"instants outside [1970, 2286) are excluded (the 10-digit seconds field cannot hold them)", "object length 0 does not occur", "profiles are those the profiler can produce"},
 		Gen: func(tier string, seed int64) []fw.Case {
 			l := fw.NewCaseList("C06", tier, seed)
